@@ -934,6 +934,14 @@ func (r *RIB) rmPendingOp(op *spb.AFTOperation) {
 	}
 }
 
+// ClearPending removes all operations that are pending (held because they have
+// unresolved dependencies) from the RIB. No result will be returned for them.
+func (r *RIB) ClearPending() {
+	r.pendMu.Lock()
+	defer r.pendMu.Unlock()
+	r.pendingEntries = map[uint64]*pendingEntry{}
+}
+
 // canResolve takes an input candidate RIB, which contains only the new entry
 // being added and determines whether it can be resolved against the existing set
 // of RIBs that are stored in r. The specified netInst string is used to
